@@ -199,7 +199,9 @@ def check_universe(ctx, kind, n):
 
 # ---- decorated universe ---------------------------------------------------
 
-DECOR = [("A", "P", 0), (0, "P", "A"), (0, "Q", 1), (1, "P", "Lx"), (0, "P", "Lx"), ("A", "P", "A")]
+DECOR = [("A", "P", 0), (0, "P", "A"), (0, "Q", 1), (1, "P", "Lx"), (0, "P", "Lx"), ("A", "P", "A"),
+         # ground triples that differ only in the kind, language or datatype of a term with one text (next to, not at, the blank nodes)
+         ("A", "P", "La"), ("A", "Q", "Lx"), ("A", "Q", "Lx_en"), ("A", "Q", "Lx_fr"), ("A", "Q", "Lx_s"), ("A", "Q", "L1"), ("A", "Q", "L1p")]
 
 
 def build_decorated(mask, dec, naming=0):
@@ -239,8 +241,8 @@ def check_decorated(ctx):
         for mask, di, code, d, d2, ch, canon_same, sk_ok in batch:
             n += 1
             case = {"decorated": [mask, di]}
-            by_digest.setdefault(d, set()).add(code)
-            by_code.setdefault(code, set()).add(d)
+            by_digest.setdefault(d, {}).setdefault(code, [mask, di])
+            by_code.setdefault(code, {}).setdefault(d, [mask, di])
             if d != d2:
                 ctx.violation("relabelled-copy|digest-or-to_isomorphic-differs", case, {})
             if not canon_same:
@@ -249,10 +251,12 @@ def check_decorated(ctx):
                 ctx.violation("skolemize-de_skolemize|not-isomorphic", case, {})
     for d, codes in by_digest.items():
         if len(codes) > 1:
-            ctx.violation("isomorphic|true-for-non-isomorphic-graphs", {"decorated_codes": sorted(codes)[:2]}, {})
+            pair = [codes[c] for c in sorted(codes)[:2]]
+            ctx.violation("isomorphic|true-for-non-isomorphic-graphs|decorated", {"decorated_pair": pair}, {"graphs": pair})
     for code, ds in by_code.items():
         if len(ds) > 1:
-            ctx.violation("isomorphic|false-for-isomorphic-graphs", {"decorated_class": code}, {})
+            pair = [ds[c] for c in sorted(ds)[:2]]
+            ctx.violation("isomorphic|false-for-isomorphic-graphs|decorated", {"decorated_pair": pair}, {"graphs": pair})
     ctx.add("evaluations", n)
     ctx.add("distinct_nontrivial", sum(1 for c, ds in by_code.items()))
     ctx.cov.setdefault("universes", []).append({"universe": "u3(decorated, <=2 bnodes, IRI, literal, 2 predicates)", "graphs": n,
@@ -568,6 +572,14 @@ def replay(ctx, case):
         v, _ = reuse_case(*case["reuse"])
         if v:
             viols.append({"sig": v[0], "case": case, "detail": v[1]})
+    elif "decorated_pair" in case:
+        (m1, d1), (m2, d2) = case["decorated_pair"]
+        g1, g2 = build_decorated(m1, [DECOR[i] for i in d1]), build_decorated(m2, [DECOR[i] for i in d2])
+        want = iso(rows(g1), rows(g2))
+        got = (_digest(g1) == _digest(g2), isomorphic(g1, g2))
+        if got != (want, want):
+            viols.append({"sig": "isomorphic|%s|decorated" % ("true-for-non-isomorphic-graphs" if not want else "false-for-isomorphic-graphs"), "case": case,
+                          "detail": {"brute_force": want, "digest_equal": got[0], "isomorphic()": got[1]}})
     elif "decorated" in case:
         for row in _decor_batch([tuple(case["decorated"])]):
             mask, di, code, d, d2, ch, canon_same, sk_ok = row
